@@ -1034,6 +1034,8 @@ def r10_weighted_second_factor(repo: Repo, rep):
 def run(repo: Repo, rep):
     from .c01 import r2_filtering  # the documented distribution of a filtering sampler is the proposal restricted to the domain: unfiltered or substituted rows follow another law
     r2_filtering(repo, rep)
+    from .c18 import r4_r6_motions  # LHS strata are laid out in the box of the moved domain: a wrong box replaces the stratified proposals by plain random ones
+    r4_r6_motions(repo, rep)
     r10_weighted_second_factor(repo, rep)
     r9_boundary_grid_shares(repo, rep)
     r11_inside_grid_request(repo, rep)
